@@ -67,6 +67,23 @@ int main(void)
             put(f_fn[4] == 'l' ? a_poly_eval_(buf, buf + n, a[n]) : a_poly_evar_(buf, buf + n, a[n]));
             free(buf);
         }
+        else if (!strcmp(f_fn, "pevalw") || !strcmp(f_fn, "pevarw"))
+        { /* the public wrappers, n may be 0 */
+            int n = f_n - 1;
+            double *buf = (double *)malloc(sizeof(double) * (size_t)(n > 0 ? n : 1));
+            for (i = 0; i < n; ++i) { buf[i] = a[i]; }
+            put(f_fn[4] == 'l' ? a_poly_eval(buf, (a_size)n, a[n]) : a_poly_evar(buf, (a_size)n, a[n]));
+            free(buf);
+        }
+        else if (!strcmp(f_fn, "pswapw"))
+        {
+            int n = f_n;
+            double *buf = (double *)malloc(sizeof(double) * (size_t)(n > 0 ? n : 1));
+            for (i = 0; i < n; ++i) { buf[i] = a[i]; }
+            a_poly_swap(buf, (a_size)n);
+            for (i = 0; i < n; ++i) { put(buf[i]); }
+            free(buf);
+        }
         else if (!strcmp(f_fn, "pswap"))
         {
             int n = f_n;
